@@ -219,7 +219,7 @@ impl Check for C17 {
             Phase { name: "label decoding classification (9 label types + 8 typed fields) on [-66000, -65000], [-300, 12000] and the probe points", cases: ((1000 + 12300) / 100 + 1 + 16) as u64, exhaustive: true },
             Phase { name: "from_i64 / is_private on random 64-bit integers: uniform, random bit widths, registered values plus random multiples of 2^8..2^56 (thorough)", cases: if q { 0 } else { crate::mon::scale(40000, b) }, exhaustive: false },
             Phase { name: "label decoding classification on every integer of [-70000, 70000] (thorough)", cases: if q { 0 } else { (2 * WINDOW / 100 + 1) as u64 }, exhaustive: true },
-            Phase { name: "label decoding classification on random 64-bit integers (thorough)", cases: if q { 0 } else { crate::mon::scale(4000, b) }, exhaustive: false },
+            Phase { name: "label decoding classification on random 64-bit integers (thorough)", cases: if q { 0 } else { crate::mon::scale(40, b) }, exhaustive: false },
             Phase { name: "text labels are kept as text in the 9 label types and 8 typed fields: decimal spellings and names of every registry entry, boundary spellings, long texts", cases: (text_probes().len() as u64 + 19) / 20, exhaustive: true },
             Phase { name: "birthday: 2^18 pairwise distinct text labels in a header / key / claims map are all kept", cases: 3, exhaustive: true },
         ]
